@@ -403,15 +403,30 @@ func c34GenConc(r *vu.RNG) string {
 	return kw + " " + strings.Join(parts, " ")
 }
 
+var c34Methods = []string{"Exists", "Len", "Peek", "Pending", "Pop", "PopWithTimer", "Push", "RemoveExtrinsic"}
+
+// c34Broken probes the lock discipline directly: when a method runs while the harness holds the
+// mutex, the concurrent cases are not run (unsynchronised map writes make the Go runtime abort the
+// whole process, and the trace with it); the probe cases report the defect.
+func c34Broken() bool {
+	for _, m := range c34Methods {
+		if c34Probe(m) != "blocked" {
+			return true
+		}
+	}
+	return false
+}
+
 func c34Gen(r *vu.RNG, n int, emit func(string)) {
+	for _, m := range c34Methods {
+		emit("probe " + m)
+	}
+	broken := c34Broken()
 	if os.Getenv("VERIF_MODE") == "stress" {
-		for i := 0; i < n; i++ {
+		for i := 0; i < n && !broken; i++ {
 			emit(c34GenConc(r))
 		}
 		return
-	}
-	for _, m := range []string{"Exists", "Len", "Peek", "Pending", "Pop", "PopWithTimer", "Push", "RemoveExtrinsic"} {
-		emit("probe " + m)
 	}
 	emit("seq")
 	emit("seq o t k n g e:0 r:0")
@@ -419,7 +434,7 @@ func c34Gen(r *vu.RNG, n int, emit func(string)) {
 	for i := 0; i < n; i++ {
 		emit(c34GenSeq(r))
 	}
-	for i := 0; i < n/25; i++ {
+	for i := 0; i < n/25 && !broken; i++ {
 		emit(c34GenConc(r))
 	}
 }
